@@ -119,7 +119,10 @@ def prior(n, kind, rng):
         return None, np.full(n, 1.0 / n)
     if kind == "uniform":
         return [1.0 / n] * n, np.full(n, 1.0 / n)
-    if kind == "skewed":
+    if kind in ("zero-first", "zero-middle"):  # one state that is never prepared (exact zero prior), not in the last position
+        w = rng.random(n) + 0.25
+        w[0 if kind == "zero-first" or n < 3 else n // 2] = 0.0
+    elif kind == "skewed":
         w = np.array([2.0 ** (-i) for i in range(n)])
         rng.shuffle(w)
     else:  # random, bounded away from 0
